@@ -1,5 +1,5 @@
 import Juniper.Driver.Basic
-import Juniper.Model.BTreeSlots
+import Juniper.Model.BTreeSlotsOps
 /-! Driver for the slot-level B-tree model (C03, "no retained garbage"): `driver treeslots`.
 
 Protocol (one output line per input line; keys / values decimal ints, natural order):
@@ -14,7 +14,7 @@ Protocol (one output line per input line; keys / values decimal ints, natural or
   (slots comma-separated, `_` = zero value / nil);
 * `full` → the same with every live node. -/
 namespace Juniper.Driver.C03Slots
-open Juniper.Driver Juniper.Model.BTreeSlots
+open Juniper.Driver Juniper.Model.BTreeSlotsOps
 
 structure St where
   h : Heap Int Int := Heap.empty
